@@ -74,6 +74,46 @@ def grpc_mappings(chk, prog):
             ob.verify(ex, 'one-delivery-for-the-subscription[%d]' % i, cnt == 1)
     chk.run('grpc:publish-batch-fidelity', prog, h2, bounds={'batch': '1..2 messages'}, setup=world.setup, max_paths=50000)
 
+    hu = [x for x in list_handlers(prog) if x['method'] == 'UpdateSubscription'][0]
+    FM = 'google.golang.org/protobuf/types/known/fieldmaskpb.FieldMask'
+    from gosym.world import F_filter_valid, F_matches
+
+    def h3(ex, ob):
+        """a filter change takes effect for every later publish (publish, change the filter, publish again)"""
+        db = reldb.sym_db(ex, prog, {'Topic': 1, 'Subscription': 1, 'Message': 0, 'Delivery': 0}, exists=True)
+        t, s = db.t['Topic'][0], db.t['Subscription'][0]
+        t.v['name'] = 'projects/p/topics/r0'
+        s.v['name'] = 'projects/p/subscriptions/r0'
+        ex.assume(And(t.isnull('deleted_at'), s.isnull('deleted_at'), s.v['topic_id'] == t.v['id'], s.isnull('dead_letter_topic_id')))
+        newf = z3.String('new_filter')
+        ex.assume(Or(newf == '', F_filter_valid()(newf)))
+
+        def publish(tag):
+            attrs = reldb.sym_value(ex, 'map', 'attrs_' + tag)
+            m = ex.new_ptr(ex.new_struct(PB + 'PubsubMessage', Data=OpaqueBytes(z3.Int('data_' + tag), 3), Attributes=attrs, OrderingKey=''))
+            req = ex.new_ptr(ex.new_struct(PB + 'PublishRequest', Topic='projects/p/topics/r0', Messages=ex.mkslice([m])))
+            resp, err, code = call_handler(ex, db, hp, req)
+            return attrs, err
+        a1, e1 = publish('first')
+        if e1 is not None:
+            raise __import__('gosym.core', fromlist=['PathAbort']).PathAbort('first publish failed')
+        sub = ex.new_ptr(ex.new_struct(PB + 'Subscription', Name='projects/p/subscriptions/r0', Filter=newf))
+        req = ex.new_ptr(ex.new_struct(PB + 'UpdateSubscriptionRequest', Subscription=sub, UpdateMask=ex.new_ptr(ex.new_struct(FM, Paths=ex.mkslice(['filter'])))))
+        r, e2, c2 = call_handler(ex, db, hu, req)
+        if e2 is not None:
+            raise __import__('gosym.core', fromlist=['PathAbort']).PathAbort('update rejected')
+        n_before = len(db.t['Delivery'])
+        a2, e3 = publish('second')
+        ob.verify(ex, 'second-publish-accepted', e3 is None)
+        if e3 is not None:
+            return
+        delivered = len(db.t['Delivery']) - n_before
+        want = Or(ex.eq(newf, ''), F_matches()(newf, a2.has, a2.val))
+        ob.verify(ex, 'later-publish-routed-by-the-current-filter', ex.eq(delivered == 1, want),
+                  lambda m: {'new_filter': str(m.eval(newf, model_completion=True)), 'old_filter_null': str(m.eval(__import__('gosym.core', fromlist=['zbool']).zbool(s.isnull('filter')), model_completion=True))})
+    chk.run('chain:publish,update-filter,publish', prog, h3, bounds={'steps': 3, 'filters': 'arbitrary old and new filter (parser verdict and matching uninterpreted)'},
+            setup=world.setup, max_paths=50000)
+
 
 def main():
     chk = Check('C02')
